@@ -41,7 +41,7 @@ pub fn run(ctx: &Ctx) -> Report {
     // is skipped and recorded as such (it then decides nothing)
     if ctx.only_case.is_none() && ctx.shard.is_none() && std::env::var("VERIF_LEG").is_err() {
         vclock_leg(ctx, &mut rep);
-        order_leg(ctx, &mut rep);
+        crate::mon::history::leg(ctx, &mut rep, "C09");
     }
     rep
 }
@@ -236,112 +236,6 @@ fn one_case(ctx: &Ctx, case: u64, l: &mut Local) {
 
 /// Child mode: `sdjwt-mon C09-vclock <base>` — build a fixed token set with exp/nbf relative to
 /// the REAL instant <base>, verify each under the (shifted) process clock, print one JSON line.
-/// Child mode "process history": `sdjwt-mon C09-order <seed>`. A fresh process first verifies a
-/// seed-dependent sequence of honest presentations (issuer alg x holder alg x format, with key
-/// binding where a holder key is bound) and only then the temporal probes: whatever the process
-/// has verified before must not change the verdict on an expired / not-yet-valid credential.
-pub fn order_child(seed: u64) {
-    use crate::keys::Alg as A;
-    let mut r = Rng::for_case(seed, STREAM + 500, 0);
-    let now = api::now();
-    let claims = json!({"iss": "https://issuer.example/A", "exp": now + 7200, "iat": now - 10, "name": "x", "list": [1, 2]});
-    let strat = crate::gen::gen_strategy(&mut Rng(3), &claims, crate::gen::StratKind::AllLevels);
-    let sel = json!({"name": true, "list": [true, false]});
-    let mut warm: Vec<(A, Option<A>, crate::model::Fmt)> = vec![];
-    for ia in ALL_ALGS {
-        for ha in [None, Some(A::ES256), Some(A::EdDSA)] {
-            for f in FMTS {
-                warm.push((ia, ha, f));
-            }
-        }
-    }
-    r.shuffle(&mut warm);
-    let m = 1 + (seed % 6) as usize;
-    let mut rows = vec![];
-    let mut order = vec![];
-    for (ia, ha, f) in warm.into_iter().take(m) {
-        let mut issuer = api::new_issuer(ia, 0, true);
-        let holder = ha.map(|h| (h, 0usize));
-        let out = match api::issue(&mut issuer, &claims, &strat, holder, false, f) {
-            Outcome::Ok(sd) => match api::holder_new(&sd, f) {
-                Outcome::Ok(mut h) => {
-                    let kb = holder.map(|hk| api::KbArgs { nonce: "n".into(), aud: "a".into(), alg: hk.0, key_idx: 0, explicit_alg: true });
-                    match api::present(&mut h, &sel, kb.as_ref()) {
-                        Outcome::Ok(p) => api::verify(&p, &Resolver::Fixed(ia, 0), kb.as_ref().map(|_| ("a", "n")), f).out.class(),
-                        _ => "present-failed",
-                    }
-                }
-                _ => "holder-failed",
-            },
-            _ => "issue-failed",
-        };
-        order.push(format!("{}+{}/{}", ia.name(), ha.map(|h| h.name()).unwrap_or("noKB"), f.name()));
-        rows.push(json!({"phase": "warm-up", "name": order.last().unwrap(), "expected": "ok", "result": out}));
-    }
-    for ia in ALL_ALGS {
-        for f in FMTS {
-            for (name, exp, nbf, expected) in [
-                ("valid", Some(now + 7200), None, "ok"),
-                ("valid-nbf-past", Some(now + 7200), Some(now - 7200), "ok"),
-                ("expired", Some(now - 7200), None, "err"),
-                ("nbf-future", Some(now + 2 * 86_400), Some(now + 86_400), "err"),
-                ("exp-absent", None, None, "err"),
-            ] {
-                let mut pl = json!({"iss": "https://issuer.example/A", "k": 1});
-                if let Some(e) = exp {
-                    pl["exp"] = json!(e);
-                }
-                if let Some(n) = nbf {
-                    pl["nbf"] = json!(n);
-                }
-                let parts = Parts { jwt: api::sign_payload(ia, 0, &pl, None), disclosures: vec![], kb: None };
-                let res = api::verify(&parts.encode(f, 0).unwrap_or_default(), &Resolver::Fixed(ia, 0), None, f).out.class();
-                rows.push(json!({"phase": "probe", "name": name, "alg": ia.name(), "fmt": f.name(), "expected": expected, "result": res}));
-            }
-        }
-    }
-    println!("{}", json!({"order": order, "rows": rows}));
-}
-
-fn order_leg(ctx: &Ctx, rep: &mut Report) {
-    let exe = match std::env::current_exe() {
-        Ok(e) => e,
-        Err(_) => return,
-    };
-    let n: u64 = if ctx.tier == crate::evidence::Tier::Quick { 24 } else { 240 };
-    let mut probes = 0u64;
-    let mut orders = std::collections::BTreeSet::new();
-    for k in 0..n {
-        let out = std::process::Command::new(&exe).args(["C09-order", &(ctx.seed.wrapping_mul(1000) + k).to_string()]).output();
-        let v: Option<Value> = out.ok().filter(|o| o.status.success()).and_then(|o| String::from_utf8_lossy(&o.stdout).lines().last().and_then(|l| serde_json::from_str(l).ok()));
-        let v = match v {
-            Some(v) => v,
-            None => {
-                rep.inconclusive.push(format!("process-history child {k} did not run"));
-                continue;
-            }
-        };
-        orders.insert(v["order"].to_string());
-        for row in v["rows"].as_array().cloned().unwrap_or_default() {
-            probes += 1;
-            rep.local.evals += 1;
-            if row["expected"] != row["result"] {
-                let probe = row["phase"] == "probe";
-                rep.local.violate(Violation {
-                    subcheck: if row["result"] == "panic" { "panic".into() } else if row["expected"] == "err" { format!("accepted-outside-window-{}", if row["name"] == "nbf-future" { "nbf" } else { "exp" }) } else if probe { "rejected-inside-window".into() } else { "honest-presentation-rejected".into() },
-                    class: format!("fresh process, after a sequence of earlier verifications: {}", row["name"].as_str().unwrap_or("")),
-                    observed: row["result"].as_str().unwrap_or("").to_string(),
-                    case: k,
-                    detail: json!({"earlier_verifications_in_this_process": v["order"], "row": row}),
-                });
-            }
-        }
-    }
-    rep.local.add("process-history.children", n);
-    rep.local.add("process-history.verdicts-checked", probes);
-    rep.local.add("process-history.distinct-orders", orders.len() as u64);
-}
-
 /// Child mode with a moving clock: `sdjwt-mon C09-vclock-history <base> <offset-file>`.
 /// The same token strings are verified at virtual instant A (base), then the process moves its
 /// own clock (the shim re-reads the offset file) to base+2d, base+400d and back to base, and
